@@ -80,7 +80,7 @@ func registerModels(e *Engine) {
 				if et, ok := sl.T.Underlying().(*types.Slice); ok {
 					sc := st.clone()
 					sc.guard = vc.define("ifg", sBool, and(st.guard, found))
-					addr := fmt.Sprintf("(elem (sl_arr %s) (+ (sl_off %s) %s))", s, s, idx.S)
+					addr := fmt.Sprintf("(selem %s %s)", s, idx.S)
 					elem := a.loadAt(sc, addr, et.Elem())
 					wl := a.writeLog
 					r := a.inline(sc, args[1].Fn.Fn, args[1].Fn.Bindings, []Val{elem}, types.Typ[types.Bool], pos)
